@@ -296,6 +296,19 @@ pub fn c05(args: &Args, reg: &[TypeEntry], log: &mut Log) {
 
     // ---- (a) pure fold ---------------------------------------------------------------------
     let groups = shared_files(reg);
+    // `--only concurrent [--runs N]`: just part (c), sized by the caller (the Miri supplement)
+    let only_concurrent = args.get("only") == Some("concurrent");
+    if only_concurrent {
+        let root = args.scratch.join(format!("c05-{shard}"));
+        std::fs::create_dir_all(&root).unwrap();
+        let out = root.join("out");
+        std::env::set_var("TS_RS_EXPORT_DIR", &out);
+        concurrent(args, reg, &groups, &root, &out, args.num("runs", 4), shard, log);
+        verif::set_probe(None);
+        clear_dir(&root);
+        let _ = std::fs::remove_dir_all(&root);
+        return;
+    }
     if shard == 0 {
         for (file, group) in &groups {
             let mut parts = vec![];
